@@ -91,7 +91,7 @@ def main(tier, seed):
     rep = Report(PROP, tier, seed)
     runner.clear_replays(PROP)
     skels = ['a,a', 'a,A2'] + (['a,a,a', 'a:u,a,a:u', 'a,n,a', 'A3'] if tier == 'thorough' else [])
-    rep.bounds = dict(histories='valid directory states produced by skeletons %s (sizes symbolic <= 32 MiB), clean shutdown' % skels,
+    rep.bounds = dict(histories='valid directory states produced by skeletons %s (sizes symbolic; quick tier: <= 4 KiB for every damage kind, <= 32 MiB for hdr_size/hdr_zero on the first history; thorough: <= 32 MiB everywhere), clean shutdown' % skels,
                       damage='one of: a header replaced by a well-formed archive with arbitrary read_size/checksum/owner; only read_size changed; header bytes that fail validation; arbitrary 2-byte length prefix; zeroed header (each at a symbolic entry position); a WAL file truncated to a symbolic length; stray files in the directory; cursor index replaced by garbage or emptied',
                       after='real Walrus::with_paths (recovery), read_next until empty and one peeking batch read per topic',
                       kani='lemma L4 (Block::read on an arbitrary 256-byte header, fixed meta_len class per harness) is run by the thorough tier when kani/ harnesses are present')
@@ -110,8 +110,16 @@ def main(tier, seed):
             for d in DAMAGES:
                 if d in ('stray', 'index_garbage', 'index_empty') and s != skels[0]:
                     continue
-                jobs.append(dict(skel=s if not d.startswith('index') else s + ',n', backend=b, damage=d))
-    agg = runner.explore_jobs(DRV[0], DRV[1], docs, jobs, dict(seed=seed, eager_div=6), min(12, runner.ncpu()), 240 if tier == 'quick' else 2400)
+                j = dict(skel=s if not d.startswith('index') else s + ',n', backend=b, damage=d)
+                if tier == 'quick':
+                    # broad set with small entries (one block); entries up to 32 MiB (multi-unit blocks) only for the damages whose
+                    # handling depends on block geometry, FD back end, first history
+                    jobs.append(dict(j, sizecap=4096))
+                    if s == skels[0] and b == 'fd' and d in ('hdr_size', 'hdr_zero'):
+                        jobs.append(j)
+                else:
+                    jobs.append(j)
+    agg = runner.explore_jobs(DRV[0], DRV[1], docs, jobs, dict(seed=seed, eager_div=6), min(12, runner.ncpu()), 420 if tier == 'quick' else 2400)
     rep.absorb(agg)
     res = agg['results']
     rep.states += len(res)
